@@ -599,12 +599,9 @@ def rule_copy(rep: Report, ix, clf: Classifier) -> None:
             rep.sample({"construct": ref, "returns": ast.unparse(src), "classified": v.show(), "why": v.why})
         if v.kind == UNKNOWN:
             raise AnalysisError(f"{ref}: cannot classify `{ast.unparse(src)}`: {v.why}")
-        uses_full = any(isinstance(x, ast.Attribute) and norm_attr(x.attr) in ("_data_full", "__data_full") for x in ast.walk(src))
-        rep.oblige(f"copy:path{n}", v.fresh and uses_full, v.show())
+        rep.oblige(f"copy:path{n}", v.fresh, v.show())
         if not v.fresh:
             rep.violation("C15.copy-fresh", f"{ref}::array", f"copy() builds the new field from {v.show()} ({v.why}): the copy aliases its source", line=p.evs[-1].node.lineno)
-        elif not uses_full:
-            rep.violation("C15.copy-fresh", f"{ref}::ghost-cells", "copy() does not duplicate the padded array (`_data_full`): ghost cells are lost", line=p.evs[-1].node.lineno)
     rep.floor("returning paths of DataFieldBase.copy", n, 1)
 
 
